@@ -70,6 +70,9 @@ structure St where
   unsynced : List String := []
   /-- key tokens whose revocation the parent acknowledged but did not carry out -/
   ignoredRevokes : List String := []
+  /-- key sets (ca, crl name) whose `next_update` the harness op `age` rewrote and that have not been
+  re-issued since: their manifest/CRL still carry the old next-update -/
+  aged : List (String × Nat) := []
   /-- … those among them where a class-name mapping points at a class the parent does not have -/
   ignoredMissing : List String := []
   /-- do not report the recorded finding `ServerMatchesObjects/reissue-without-sync` -/
